@@ -97,6 +97,9 @@ func rtInputs(c *config, stream string, ngen int) []rtInput {
 	// blocks whose NAME is a number, next to unnamed blocks carrying the same number as their ID
 	add("spelling", "numeric-labels", "define i32 @f(i1 %c) {\n\tbr i1 %c, label %\"0\", label %\"7\"\n\"0\":\n\tbr label %\"7\"\n\"7\":\n\t%p = phi i32 [ 1, %\"0\" ], [ 2, %0 ]\n\tret i32 %p\n}\n")
 	add("spelling", "numbering", "define i32 @f(i32 %0, i32) {\n2:\n\t%3 = add i32 %0, %1\n\tbr label %4\n4:\n\t%5 = mul i32 %3, %3\n\tret i32 %5\n}\n\ndefine i32 @g(i32, i32) {\n\t%3 = add i32 %0, %1\n\tret i32 %3\n}\n")
+	// all-digit names with leading zeros (they are names, not IDs: quoted by the printer), in the positions where
+	// all-digit names work on the unchanged tree (globals, functions, parameters, blocks), with uses
+	add("spelling", "numeric-names", "@\"007\" = global i32 1\n@\"00\" = global i32* @\"007\"\n@\"7\" = global i32 2\n\ndefine i32 @\"0012\"(i32 %\"01\", i32 %\"1\") {\n\"00\":\n\t%x = add i32 %\"01\", %\"1\"\n\tbr label %\"010\"\n\"010\":\n\t%y = load i32, i32* @\"007\"\n\t%z = add i32 %x, %y\n\tret i32 %z\n}\n\ndefine i32 @caller() {\n\t%r = call i32 @\"0012\"(i32 1, i32 2)\n\tret i32 %r\n}\n")
 	add("spelling", "quoting", "@\"plain\" = global i32 0 ; comment\n\n\n  @\"with space\"   =   global   i32   1\ndefine void @\"f\"() {\n\"entry\":\n\tret void\n}\n")
 	return ins
 }
@@ -690,6 +693,38 @@ func runC03(c *config) {
 	decl := ir.NewModule()
 	decl.NewGlobal("g", types.I32)
 	c03Check(c, decl, map[string]interface{}{"program": "m.NewGlobal(\"g\", i32)"}, "global_decl_no_linkage", false)
+	// exception-handling terminators and pads through their constructors, the optional unwind target absent
+	// (nil: "unwind to caller") and present
+	for variant := 0; variant < 4; variant++ {
+		m := ir.NewModule()
+		pers := m.NewFunc("pers", types.I32)
+		pers.Sig.Variadic = true
+		callee := m.NewFunc("callee", types.Void)
+		f := m.NewFunc("f", types.Void)
+		f.Personality = pers
+		entry, cs, h1, cl, cl2, done := f.NewBlock("entry"), f.NewBlock("cs"), f.NewBlock("h1"), f.NewBlock("cl"), f.NewBlock("cl2"), f.NewBlock("done")
+		entry.NewInvoke(callee, nil, done, cs)
+		var unwind, unwind2 *ir.Block
+		if variant&1 != 0 {
+			unwind = cl
+		}
+		if variant&2 != 0 {
+			unwind2 = cl2
+		}
+		sw := cs.NewCatchSwitch(constant.None, []*ir.Block{h1}, unwind)
+		sw.SetName("sw")
+		cp := h1.NewCatchPad(sw, constant.NewInt(types.I32, 7))
+		cp.SetName("cp")
+		h1.NewCatchRet(cp, done)
+		pad := cl.NewCleanupPad(constant.None)
+		pad.SetName("pad")
+		cl.NewCleanupRet(pad, unwind2)
+		pad2 := cl2.NewCleanupPad(constant.None, constant.NewInt(types.I32, 1))
+		pad2.SetName("pad2")
+		cl2.NewCleanupRet(pad2, nil)
+		done.NewRet(nil)
+		c03Check(c, m, map[string]interface{}{"program": fmt.Sprintf("catchswitch / catchpad / catchret / cleanuppad / cleanupret through the constructors, variant %d (bit 0: catchswitch unwinds to a block, bit 1: cleanupret unwinds to a block)", variant)}, "", false)
+	}
 	// address spaces can only be given by assigning the field after the constructor: the typed uses must follow
 	for variant := 0; variant < 3; variant++ {
 		m := ir.NewModule()
